@@ -152,6 +152,13 @@ Theorem C07_transmit_intercept_iff : forall dl ans f,
 Proof. exact transmit_intercept_iff. Qed.
 Print Assumptions C07_transmit_intercept_iff.
 
+(** the byte count n that Write answers is ignored (as in the code: `_, err := conn.Write`): never a
+    second Write, and (n < 16, nil) counts as success *)
+Theorem C07_transmit_ignores_write_count : forall dl d w n1 n2 f,
+  transmit dl (mkAnswers d w n1) f = transmit dl (mkAnswers d w n2) f.
+Proof. exact transmit_ignores_count. Qed.
+Print Assumptions C07_transmit_ignores_write_count.
+
 (** no write if setting the deadline failed *)
 Theorem C07_transmit_deadline_failed : forall ans f e, ans_deadline ans = Some e ->
   transmit true ans f = ([TxSetDeadline], TxErr e).
